@@ -239,6 +239,7 @@ def check(model: Model, run: Run) -> None:
         floor=1,
     )
     _r2_established(model, run, est, cg)
+    _r2_established(model, run, est, cg, 'OPENCONFIRM')
 
     # ------------------------------------------------------------------ R3
     run.rule(
@@ -297,14 +298,14 @@ def _events_of_call(model: Model, cg: CallGraph, fi: FuncInfo, call: ast.Call) -
     return out
 
 
-def _r2_established(model: Model, run: Run, est: FuncInfo, cg: CallGraph) -> None:
+def _r2_established(model: Model, run: Run, est: FuncInfo, cg: CallGraph, state: str = 'ESTABLISHED') -> None:
     cfg = CFG(est.node)
     site = None
     for n in walk_no_nested(est.node):
-        if isinstance(n, ast.Call) and change_target(model, est, n) == 'ESTABLISHED':
+        if isinstance(n, ast.Call) and change_target(model, est, n) == state:
             site = n
     if site is None:
-        run.cannot('change(ESTABLISHED) not found in _establish')
+        run.cannot('change(%s) not found in _establish' % state)
         return
     reached: list[tuple] = []
 
@@ -326,24 +327,26 @@ def _r2_established(model: Model, run: Run, est: FuncInfo, cg: CallGraph) -> Non
         return
     bad = None
     for seq in set(reached):
-        why = _order_ok(seq)
+        why = _order_ok(seq, state)
         if why:
             bad = (seq, why)
             break
     if bad is None:
-        run.ok('_establish: change(ESTABLISHED)', '%d distinct event sequences, e.g. %s' % (len(set(reached)), list(sorted(set(reached))[0])))
+        run.ok('_establish: change(%s)' % state, '%d distinct event sequences, e.g. %s' % (len(set(reached)), list(sorted(set(reached))[0])))
     else:
         run.violation(
             est.qualname,
-            'change(ESTABLISHED) reachable after %s' % (list(bad[0]),),
+            'change(%s) reachable after %s' % (state, list(bad[0])),
             est.loc(site),
-            'ESTABLISHED must follow OPEN sent and recorded, peer OPEN read and recorded, validation after both, KEEPALIVE '
-            'sent and KEEPALIVE read: ' + bad[1],
+            ('ESTABLISHED must follow OPEN sent and recorded, peer OPEN read and recorded, validation after both, KEEPALIVE '
+            'sent and KEEPALIVE read: ' if state == 'ESTABLISHED' else 'RFC 4271 8.2.2: OpenSent -> OpenConfirm is the transition for an OPEN that was received AND found acceptable (Event 19); an OPEN that fails the check takes OpenSent to Idle without passing OpenConfirm: ') + bad[1],
         )
 
 
-def _order_ok(seq: tuple) -> str:
+def _order_ok(seq: tuple, state: str = 'ESTABLISHED') -> str:
     need = ['new_open', 'read_open', 'sent', 'received', 'validate_open', 'new_keepalive', 'read_keepalive']
+    if state != 'ESTABLISHED':
+        need = need[:5]
     for n in need:
         if n not in seq:
             return 'missing ' + n
@@ -355,7 +358,7 @@ def _order_ok(seq: tuple) -> str:
         return 'negotiated.sent precedes new_open'
     if not (first['received'] > first['read_open']):
         return 'negotiated.received precedes read_open'
-    if not (first['new_keepalive'] > first['validate_open'] and first['read_keepalive'] > first['validate_open']):
+    if state == 'ESTABLISHED' and not (first['new_keepalive'] > first['validate_open'] and first['read_keepalive'] > first['validate_open']):
         return 'keepalive exchange does not follow validate_open'
     return ''
 
